@@ -18,7 +18,7 @@ CLAIMS = {
     "C07": ("who-writes-field over SSA stores; SSA dominating-guard atoms on table entries; linear ownership path queries for AddRef results; teardown must-pass-through",
             "ownership/layering necessary conditions of reference counting (designated writers of every count, nil-tested table entries, Release carries the entry's count, AddRef results disposed on all paths, complete teardown); not the count equation over histories",
             "trusts x/tools v0.29.0; access-path (not alias) matching of guards", "DESIGN.md 3 C07"),
-    "C08": ("SSA dominance: non-nil / length guards on untrusted ids and table entries, known-nil detection for annotate arguments, nil-able func fields; switch-default and panic census over the call graph; lock-state dataflow with absolute-state propagation",
+    "C08": ("SSA dominance: non-nil / length guards on untrusted ids and table entries, known-nil detection for annotate arguments, nil-able func fields; switch-default and panic census over the call graph; comma-ok type-assertion results dereferenced only under ok; task-group pairing; lock-state dataflow with absolute-state propagation",
             "necessary conditions for surviving a hostile peer (no unchecked index or nil table entry, annotate never gets nil, no call through a possibly-nil func field, non-panicking dispatch defaults, handler errors propagate, enumerated panics, no application code or blocking under Conn.mu); not protocol-correctness of each reply",
             "trusts x/tools v0.29.0; CHA call graph restricted to the module for interface dispatch", "DESIGN.md 3 C08"),
     "C09": ("path-sensitive lock-state dataflow over go/cfg with function summaries and absolute-state propagation from entry points; must-pass-through path queries; interprocedural dynamic-type flow over SSA for the stream-broken latch",
@@ -39,13 +39,13 @@ CLAIMS = {
     "C04": ("sibling cross-check of getter/setter/list accessor pairs against the schema width table (SSA anchors), normal forms of setters and alloc, who-may-grow-a-segment, header-field table shared by the four framers",
             "three necessary conditions of write/read-back agreement decided over every accessor pair and framer (same guard, same width, same address on both sides; a single bump allocator that zero-fills; one header layout); not round-trip equality, non-interference or chunking independence",
             "trusts x/tools v0.29.0", "DESIGN.md 3 C04"),
-    "C05": ("abstract interpretation of the pointer-word encoders over per-bit provenance, composition decoder(encoder(args)) in the same domain, normal forms of List.raw/nearPointerOffset/allocSize, anchor lemmas for the shapes emitted by writePtr",
+    "C05": ("abstract interpretation of the pointer-word encoders over per-bit provenance, composition decoder(encoder(args)) in the same domain, normal forms of List.raw/nearPointerOffset/allocSize, anchor lemmas for the shapes emitted by writePtr, pairing of every address returned by alloc with the segment returned by the same call",
             "bit-exact agreement of every encoder with the specified layout and inverse agreement with the decoders of C03 for all argument values, plus the structural conditions under which writePtr emits near / far / double-far pointers; not that an independent decoder reconstructs the written tree",
             "trusts x/tools v0.29.0; opaque arithmetic fails the rule", "DESIGN.md 3 C05"),
-    "C13": ("SSA def-use (the copy count reaches a comparison), value-source classification of allocation sizes and run counters, tag-dispatch sibling comparison of Pack/Unpack/ReadWord, interval analysis of indexes against dominating length tests",
+    "C13": ("SSA def-use (the copy count reaches a comparison), value-source classification of allocation sizes and run counters, tag-dispatch sibling comparison of Pack/Unpack/ReadWord, interval analysis of indexes against dominating length tests, upper-bound analysis of every value converted to a count byte, io.EOF exclusion for reads after the tag byte",
             "four structural clauses of the packed codec decided over every site (short literal detected, growth per count byte bounded by a single byte, same tag set in all three codecs with ErrUnexpectedEOF at every truncation point, every input index bounded); not unpack(pack(x)) = x nor equivalence of the two decoders",
             "trusts x/tools v0.29.0", "DESIGN.md 3 C13"),
-    "C14": ("SSA dominance of header-derived allocation sizes by limit comparisons, normal form of totalSize, classification of every returned error in Decode (EOF only for the first header read), three-index-slice check for reused buffers",
+    "C14": ("SSA dominance of header-derived allocation sizes by limit comparisons, normal form of totalSize, classification of every returned error in Decode (EOF only for the first header read), three-index-slice check for reused buffers, reset completeness (every field written elsewhere is re-initialised by Message.Reset on every path)",
             "structural necessary conditions of bounded, exactly framed decoding decided over every allocation and return site of Decoder.Decode, Unmarshal and demuxArena; not equality of decoded and encoded messages nor exact allocation totals",
             "trusts x/tools v0.29.0", "DESIGN.md 3 C14"),
     "C15": ("static analysis of the generator's template program (the string constant compiled into capnpc-go parsed with text/template/parse): snippet-first discipline per accessor, getter/setter expression agreement, file/embedded tree equality; normal forms of the parameter code; no-map-iteration and dropped-error rules over SSA",
@@ -54,13 +54,13 @@ CLAIMS = {
     "C16": ("anchor lemmas over SSA (call + arguments + dominating atoms) for the copy decision of writePtr, the capability re-homing, copyStruct's section handling and list copies",
             "structural necessary conditions of deep copy on assignment decided over the copy kernel (copy exactly under forceCopy / other message / list member; capabilities re-homed with AddRef; truncation, zero-fill and nulling of sections; fresh allocation per copied list); not value equality of the copy nor independence under later mutation",
             "trusts x/tools v0.29.0; normal forms are sensitive to refactoring of the named kernel functions (a changed form is reported as undecided-violation with both forms)", "DESIGN.md 3 C16"),
-    "C17": ("SSA guard analysis (element-size*length only under a not-bit-list proof), case-coverage lemmas for Equal, dropped-error rule for the recursion",
+    "C17": ("SSA guard analysis (element-size*length only under a not-bit-list proof), case-coverage lemmas for Equal, dropped-error rule for the recursion, full-scan recogniser for isZeroFilled, same-message guard of the capability-index shortcut",
             "necessary conditions of Equal being structural equality decided over every comparison site; not iff-correctness, reflexivity or symmetry as value-level facts",
             "trusts x/tools v0.29.0", "DESIGN.md 3 C17"),
     "C18": ("SSA guard analysis of the bulk-copy path, anchor lemmas for canonical sizes, pre-order allocation order via dominance, capability rejection and single-segment output lemmas, dropped-error rule",
             "structural necessary conditions of canonicalisation decided over canonical.go (composite lists never take the data-only path; every struct sized by canonicalStructSize; pre-order allocation; capabilities rejected); not byte-identity across layouts nor idempotence as value-level facts",
             "trusts x/tools v0.29.0", "DESIGN.md 3 C18"),
-    "C19": ("sibling table extraction: each schema walker's type switch compared with the schema width/scale table; union-guard reachability over the SSA CFG; bounds-predicate normal form; cached-message budget rule; dropped-error rule",
+    "C19": ("sibling table extraction: each schema walker's type switch compared with the schema width/scale table; union-guard reachability over the SSA CFG; bounds-predicate normal form; cached-message budget rule (limit assigned before the first read); dropped-error rule; append-aliasing rule; FIFO work list of embedded structs",
             "structural necessary conditions of pogs agreeing with generated accessors decided over every accessor call in extractField/insertField/marshalFieldValue; not round-trip equality nor Go struct tag/embedding resolution",
             "trusts x/tools v0.29.0", "DESIGN.md 3 C19"),
     "C20": ("finite-domain evaluation of the escape predicate by constant folding over all 256 byte values on the SSA form, escape-switch/guard contradiction rule, dropped-error rule, cached-message budget rule, sibling table and union guard for the text walker",
